@@ -1,6 +1,7 @@
 import ScVerif.Base.Line
 import ScVerif.C16.Tolerance
 import ScVerif.C16.Pull
+import ScVerif.C16.FloatIEEE
 /-!
 Driver handler for C16.  Parsing/printing glue only (trusted base of the correspondence check).
 
@@ -238,6 +239,9 @@ def handle? (toks : List String) : Option String :=
 def handle (toks : List String) : String :=
   match handle? toks with
   | some r => r
-  | none => "!bad-op"
+  | none =>
+    match IEEE.handle? toks with
+    | some r => r
+    | none => "!bad-op"
 
 end ScVerif.C16
